@@ -81,6 +81,7 @@ pub struct UnitReport {
     pub sample_obligations: Vec<String>,
     pub native_replays: u64,
     pub normal_form_decisions: u64,
+    pub cc_asked: u64, pub cc_agreed: u64, pub cc_noanswer: u64, pub cc_disagree: Vec<String>,
     pub wall: f64,
     pub max_path_len: usize,
 }
@@ -105,7 +106,7 @@ fn run_body(f: &Body) -> PathEnd {
     }
 }
 
-pub struct Config { pub threads: usize, pub timeout_ms: u64, pub replay_dir: String, pub property: String, pub known: Vec<KnownFinding>, pub verbose: bool }
+pub struct Config { pub crosscheck_every: u64, pub threads: usize, pub timeout_ms: u64, pub replay_dir: String, pub property: String, pub known: Vec<KnownFinding>, pub verbose: bool }
 #[derive(Clone, Debug)]
 pub struct KnownFinding { pub property: String, pub unit_prefix: String, pub label_prefix: String, pub what: String }
 
@@ -218,6 +219,7 @@ fn worker(units: &[Unit], sched: &(Mutex<Sched>, Condvar), cfg: &Config) {
             ctx.solver.tag = unit.id.clone();
             if let Some(t) = unit.branch_nl_timeout_ms { ctx.branch_nl_timeout_ms = t; }
             ctx.concolic = unit.concolic;
+            ctx.crosscheck_every = cfg.crosscheck_every;
             CTX.with(|c| *c.borrow_mut() = Some(ctx));
             cur = Some(ui);
         }
@@ -269,6 +271,8 @@ fn worker(units: &[Unit], sched: &(Mutex<Sched>, Condvar), cfg: &Config) {
             r.obligations += stats.obligations; r.discharged += stats.discharged; r.discharged_ident += stats.discharged_ident; r.real_equal_only += stats.real_equal_only;
             r.unknown_branches += stats.unknown_branches;
             r.native_replays += replays;
+            let cc = sym::with(|c| std::mem::take(&mut c.crosscheck));
+            r.cc_asked += cc.0; r.cc_agreed += cc.1; r.cc_noanswer += cc.2; r.cc_disagree.extend(cc.3);
             r.normal_form_decisions += sym::with(|c| c.n_lin_decided.get() + c.n_poly_decided.get()) - nf0;
             for i in stats.inconclusive { if r.inconclusive.len() < 16 { r.inconclusive.push(i) } }
             for e in stats.events { if r.events.len() < 6 && !r.events.contains(&e) { r.events.push(e) } }
